@@ -1,13 +1,15 @@
 package aggregator
 
-// C10 harness (I->S): three real in-process aggregators (replica keys 1..3; real RPC server,
-// handler and ticker; a fake ClickHouse that accepts every insert) receive real
+// C10 harness (I->S): three real in-process aggregators (replica keys 1..3, configured the
+// production way from a cluster description served by a fake ClickHouse, which also accepts
+// every insert; real RPC server, handler and ticker) receive real
 // statshouse.sendSourceBucket3 requests for seconds all around their recent window, recent and
 // historic, and far back at the historic window's edge.  The hooks of the C01 work (GFile /
 // GReject in handleSendSourceBucket, GTick in goTicker; build tag verif) report, under a.mu,
 // the window the handler saw and the bucket it chose.  Every decision becomes one "file" line,
 // every hand-off of goTicker one "tick" line, every aggregator's by-metric count one "config"
-// line for specs/RoutingTrace.tla.
+// line, every probe with a right or wrong header.ShardReplica one "addr" line for
+// specs/RoutingTrace.tla.
 //
 // Lines are written through to the file as they happen: goTicker panics when it finds data in
 // a bucket of a foreign second, and the decisions that led there must survive that.
@@ -44,6 +46,7 @@ type verifC10Sink struct {
 	kinds   map[string]int
 	waiters map[string]chan struct{}
 	repOf   map[string]int // instance name -> replica key
+	probe   map[string]int // host of an addressing probe -> header.ShardReplica it carried
 	samples []any
 }
 
@@ -100,6 +103,11 @@ func (s *verifC10Sink) emit(ev string, kv ...any) {
 	if !strings.HasPrefix(host, "c10-") { // the aggregators' own agents also send buckets
 		return
 	}
+	if sr, ok := s.probe[host]; ok && ev != "GHijack" {
+		// past checkShardConfiguration unless rejected as "wrong-shard"
+		s.line(map[string]any{"a": "addr", "sk": 1, "r": r, "sr": sr, "accepted": !(ev == "GReject" && m["why"] == "wrong-shard")}, "addr")
+		delete(s.probe, host)
+	}
 	if _, ok := m["oldest"]; ok {
 		ln := map[string]any{"a": "file", "r": r, "s": verifC10Int(m["sec"]), "hist": m["historic"],
 			"oldest": verifC10Int(m["oldest"]), "newest": verifC10Int(m["newest"]), "hw": verifC10Int(m["hw"])}
@@ -128,7 +136,7 @@ func verifC10FreeAddr() string {
 	return ln.Addr().String()
 }
 
-func verifC10MakeAggregator(t *testing.T, dir string, chAddr string, inst string, addrs []string, shard, replica, byMetric int) (*Aggregator, error) {
+func verifC10MakeAggregator(t *testing.T, dir string, chAddr string, inst string, listenAddr string, replica, byMetric int) (*Aggregator, error) {
 	_ = os.MkdirAll(dir, 0o755)
 	open := func(name string) *os.File {
 		f, err := os.OpenFile(filepath.Join(dir, name), os.O_CREATE|os.O_RDWR, 0o666)
@@ -145,8 +153,6 @@ func verifC10MakeAggregator(t *testing.T, dir string, chAddr string, inst string
 	cfg.Cluster = "verif"
 	cfg.KHAddr = chAddr
 	cfg.KHUser = inst
-	cfg.LocalShard = shard
-	cfg.LocalReplica = replica
 	cfg.ShardByMetricShards = byMetric
 	cfg.RecentInserters = 2
 	cfg.HistoricInserters = 1
@@ -157,7 +163,7 @@ func verifC10MakeAggregator(t *testing.T, dir string, chAddr string, inst string
 	cfg.RemoteInitial.DenyOldAgents = false
 	cfg.RemoteInitial.ReceiveBudgetWarming = 0
 	return MakeAggregator(open("journal.cache"), open("journal-compact.cache"), mappingsCache, mappingsStorage, nil, dir,
-		strings.Join(addrs, ","), "", [][]string{{"127.0.0.0/8"}}, cfg, "verif-"+inst, false)
+		listenAddr, "", [][]string{{"127.0.0.0/8"}}, cfg, "verif-"+inst, false)
 }
 
 func TestVerifC10Filing(t *testing.T) {
@@ -173,10 +179,15 @@ func TestVerifC10Filing(t *testing.T) {
 	}
 	res.Files = append(res.Files, p)
 	res.Write(t) // a result exists from now on, whatever happens to the process
-	sink := &verifC10Sink{f: f, kinds: map[string]int{}, waiters: map[string]chan struct{}{}, repOf: map[string]int{}}
+	sink := &verifC10Sink{f: f, kinds: map[string]int{}, waiters: map[string]chan struct{}{}, repOf: map[string]int{}, probe: map[string]int{}}
 	verifEmitFunc = sink.emit
 
-	// fake ClickHouse: every insert succeeds
+	// fake ClickHouse: describes the cluster to each aggregator (the production way of finding the own
+	// shard and replica: system.clusters, is_local), every insert succeeds.  Replica r of shard sh is
+	// host 127.0.0.((sh-1)*3+r), all on one port; hosts of shard 2 do not exist.
+	type clusterT struct{ n, replica int }
+	var clMu sync.Mutex
+	clusterOf := map[string]clusterT{}
 	chLn, err := net.Listen("tcp4", "127.0.0.1:0")
 	if err != nil {
 		t.Fatal(err)
@@ -184,14 +195,33 @@ func TestVerifC10Filing(t *testing.T) {
 	go func() {
 		_ = (&http.Server{Handler: http.HandlerFunc(func(w http.ResponseWriter, r *http.Request) {
 			_, _ = io.Copy(io.Discard, r.Body)
+			if strings.Contains(r.URL.Query().Get("query"), "system.clusters") {
+				clMu.Lock()
+				c, ok := clusterOf[r.Header.Get("X-ClickHouse-User")]
+				clMu.Unlock()
+				if !ok {
+					w.WriteHeader(500)
+					return
+				}
+				for sh := 1; sh <= c.n; sh++ {
+					for rep := 1; rep <= 3; rep++ {
+						local := 0
+						if sh == 1 && rep == c.replica {
+							local = 1
+						}
+						fmt.Fprintf(w, "%d\t%d\t%d\t127.0.0.%d\n", sh, rep, local, (sh-1)*3+rep)
+					}
+				}
+				return
+			}
 			w.WriteHeader(200)
 		})}).Serve(chLn)
 	}()
+	_, port, _ := net.SplitHostPort(verifC10FreeAddr())
 
-	// replica 1: one shard, by-metric flag 0; replicas 2 and 3 are told of a second (absent) shard,
-	// with the flag at 1 and at 0: three different (N, S) for the "config" lines
-	own := []string{verifC10FreeAddr(), verifC10FreeAddr(), verifC10FreeAddr()}
-	absent := []string{"127.0.0.1:1", "127.0.0.1:2", "127.0.0.1:3"}
+	// replica 1 sees one shard, by-metric flag 0; replicas 2 and 3 see a second (absent) shard, with
+	// the flag at 1 and at 0: three different (N, S) for the "config" lines
+	own := []string{"127.0.0.1:" + port, "127.0.0.2:" + port, "127.0.0.3:" + port}
 	type cfgT struct{ n, s int }
 	cfgs := []cfgT{{1, 0}, {2, 1}, {2, 0}}
 	aggs := make([]*Aggregator, 3)
@@ -200,13 +230,15 @@ func TestVerifC10Filing(t *testing.T) {
 		sink.mu.Lock()
 		sink.repOf[inst] = r + 1
 		sink.mu.Unlock()
-		addrs := append([]string{}, own...)
-		if cfgs[r].n == 2 {
-			addrs = append(addrs, absent...)
-		}
-		a, err := verifC10MakeAggregator(t, filepath.Join(dir, inst), chLn.Addr().String(), inst, addrs, 1, r+1, cfgs[r].s)
+		clMu.Lock()
+		clusterOf[inst] = clusterT{cfgs[r].n, r + 1}
+		clMu.Unlock()
+		a, err := verifC10MakeAggregator(t, filepath.Join(dir, inst), chLn.Addr().String(), inst, own[r], r+1, cfgs[r].s)
 		if err != nil {
 			t.Fatalf("MakeAggregator %s: %v", inst, err)
+		}
+		if a.withoutCluster || int(a.replicaKey) != r+1 || a.shardKey != 1 {
+			t.Fatalf("aggregator %s did not configure itself from the cluster description: %v %d:%d", inst, a.withoutCluster, a.shardKey, a.replicaKey)
 		}
 		aggs[r] = a
 		a.configMu.RLock()
@@ -218,11 +250,11 @@ func TestVerifC10Filing(t *testing.T) {
 	}
 	// more by-metric shards than shards must be refused (Routing.tla: S ranges over 0..N)
 	for _, c := range []cfgT{{1, 2}, {2, 3}} {
-		addrs := []string{verifC10FreeAddr(), "127.0.0.1:2", "127.0.0.1:3"}
-		if c.n == 2 {
-			addrs = append(addrs, absent...)
-		}
-		a, err := verifC10MakeAggregator(t, filepath.Join(dir, fmt.Sprintf("bad%d", c.n)), chLn.Addr().String(), "bad", addrs, 1, 1, c.s)
+		inst := fmt.Sprintf("bad%d", c.n)
+		clMu.Lock()
+		clusterOf[inst] = clusterT{c.n, 1}
+		clMu.Unlock()
+		a, err := verifC10MakeAggregator(t, filepath.Join(dir, inst), chLn.Addr().String(), inst, "127.0.0.9:"+port, 1, c.s)
 		if err == nil {
 			a.configMu.RLock()
 			cc := a.getConfigResult3Locked()
@@ -250,16 +282,21 @@ func TestVerifC10Filing(t *testing.T) {
 	ctx, cancel := context.WithCancel(context.Background())
 	defer cancel()
 	nreq := 0
-	send := func(r int, sec uint32, historic, spare bool) {
+	send := func(r int, sec uint32, historic, spare bool, sr int) {
 		nreq++
 		host := fmt.Sprintf("c10-%d", nreq)
 		done := make(chan struct{})
 		sink.mu.Lock()
 		sink.waiters[host] = done
+		if sr >= 0 {
+			sink.probe[host] = sr
+		} else {
+			sr = r
+		}
 		sink.mu.Unlock()
 		args := tlstatshouse.SendSourceBucket3{Time: sec, BuildCommit: "", BuildCommitTs: format.LeastAllowedAgentCommitTs + 1,
 			OriginalSize: originalSize, CompressedData: string(compressed)}
-		args.Header = tlstatshouse.CommonProxyHeader{ShardReplica: int32(r), ShardReplicaTotal: 3, AgentIp: [4]int32{0, 0, 0, 0x7f000001},
+		args.Header = tlstatshouse.CommonProxyHeader{ShardReplica: int32(sr), ShardReplicaTotal: 3, AgentIp: [4]int32{0, 0, 0, 0x7f000001},
 			HostName: host, ComponentTag: format.TagValueIDComponentAgent}
 		args.SetHistoric(historic)
 		args.SetSpare(spare)
@@ -311,12 +348,24 @@ func TestVerifC10Filing(t *testing.T) {
 			secs = append(secs, oldest-uint32(rnd.Intn(int(hw))), oldest-uint32(rnd.Intn(3600)))
 			rnd.Shuffle(len(secs), func(i, j int) { secs[i], secs[j] = secs[j], secs[i] })
 			for _, s := range secs {
-				send(r, s, false, rnd.Intn(2) == 0)
-				send(r, s, true, rnd.Intn(2) == 0)
+				send(r, s, false, rnd.Intn(2) == 0, -1)
+				send(r, s, true, rnd.Intn(2) == 0, -1)
+			}
+			for sr := 0; sr < 7; sr++ { // addressing probes: every shard replica index of two shards and one beyond
+				send(r, oldest+uint32(rnd.Intn(4)), rnd.Intn(2) == 0, rnd.Intn(2) == 0, sr)
 			}
 		}
 	}
 	res.Replayed = nreq
+	for i := 0; i < 400; i++ { // at least one hand-off by goTicker (one of the three has an own second every second)
+		sink.mu.Lock()
+		n := sink.kinds["tick"]
+		sink.mu.Unlock()
+		if n > 0 {
+			break
+		}
+		time.Sleep(50 * time.Millisecond)
+	}
 	sink.mu.Lock()
 	for k, v := range sink.kinds {
 		res.Counters[k] = v
@@ -328,7 +377,7 @@ func TestVerifC10Filing(t *testing.T) {
 	verifEmitFunc = nil
 	sink.f.Close()
 	sink.mu.Unlock()
-	for _, k := range []string{"file/recent", "file/historic", "reject/future", "reject/late", "reject/beyond-window", "tick", "config"} {
+	for _, k := range []string{"file/recent", "file/historic", "reject/future", "reject/late", "reject/beyond-window", "tick", "config", "addr"} {
 		if res.Counters[k] == 0 {
 			t.Fatalf("no %s decision observed: %v", k, res.Counters)
 		}
